@@ -41,7 +41,7 @@ class Run(PropRunStream):
     quick_cases = 300
     quick_seconds = 50
     corpus = [witness("N1 ")]
-    p_interrupt = 0.1
+    p_interrupt = 0.2
 
 
 def streams(ctx):
